@@ -10,13 +10,15 @@ pub mod c01;
 pub mod c02;
 pub mod c03;
 pub mod c04;
+pub mod c08;
 pub mod c09;
 pub mod c11;
 pub mod c12;
 pub mod c14;
+pub mod c20;
 
 pub fn all() -> Vec<Box<dyn Scenario>> {
-    vec![Box::new(c01::C01), Box::new(c02::C02), Box::new(c03::C03), Box::new(c04::C04), Box::new(c09::C09), Box::new(c11::C11), Box::new(c12::C12), Box::new(c14::C14)]
+    vec![Box::new(c01::C01), Box::new(c02::C02), Box::new(c03::C03), Box::new(c04::C04), Box::new(c08::C08), Box::new(c09::C09), Box::new(c11::C11), Box::new(c12::C12), Box::new(c14::C14), Box::new(c20::C20)]
 }
 
 pub fn by_id(id: &str) -> Option<Box<dyn Scenario>> {
@@ -133,4 +135,52 @@ pub fn plan_summary(g: &Generated) -> serde_json::Value {
         "broker": {"think_max_ns": g.broker.think_max_ns, "seg_mode": format!("{:?}", g.broker.seg_mode), "mux_burst_max": g.broker.mux_burst_max, "tune": format!("{:?}", g.broker.tune)},
         "sched": {"stick_pct": g.sched.stick_pct, "io_atomic": g.sched.io_atomic},
     })
+}
+
+use crate::client::{History, Op, OpRec, OpResult};
+
+pub fn touches_channel(op: &Op) -> bool {
+    !matches!(op, Op::Yield | Op::Gate(_) | Op::ReadReturns | Op::ReadConfirms | Op::DropReturns | Op::DropConfirms | Op::ForgetConsumer { .. } | Op::Drain { .. } | Op::DropConsumer { .. } | Op::ForeignAck { .. })
+}
+
+/// "The next call on the channel fails with `want`": the first failing call of every channel
+/// must carry exactly that error, unless a call whose error the program cannot see (consumer
+/// drop, acks inside a drain, the implicit consumer drops before the final channel close) may
+/// have been that next call.  Returns (channels checked, channels where the rule was relaxed).
+pub fn first_error_rule(rep: &mut CaseReport, oracle: &str, hist: &History, want: &str, after_stamp: u64) -> (u64, u64) {
+    use std::collections::BTreeMap;
+    let mut per: BTreeMap<(usize, u16), Vec<&OpRec>> = BTreeMap::new();
+    for o in &hist.ops {
+        if o.result != OpResult::Skipped && o.ch_id != 0 {
+            per.entry((o.thread, o.ch_id)).or_default().push(o);
+        }
+    }
+    let (mut checked, mut relaxed_n) = (0, 0);
+    for ((_t, ch), ops) in per {
+        let has_consumers = ops.iter().any(|o| matches!(o.op, Op::Consume { .. }));
+        let mut swallowed = false;
+        for o in &ops {
+            match &o.op {
+                Op::DropConsumer { .. } => swallowed |= o.ret > after_stamp,
+                Op::Drain { acks, .. } if !acks.is_empty() => swallowed |= o.ret > after_stamp,
+                _ => {}
+            }
+            if !touches_channel(&o.op) {
+                continue;
+            }
+            if let OpResult::Err(e) = &o.result {
+                let e = e.trim_start_matches("ack-after-get:");
+                let relaxed = swallowed || (o.idx >= 1_000_000 && has_consumers);
+                checked += 1;
+                if relaxed {
+                    relaxed_n += 1;
+                } else if e != want {
+                    rep.violate(oracle, "first-error-kind", format!("channel {}: first failing call {} returned {}, expected {}", ch, crate::expect::short_op(&o.op), e, want));
+                    return (checked, relaxed_n);
+                }
+                break;
+            }
+        }
+    }
+    (checked, relaxed_n)
 }
